@@ -19,7 +19,7 @@ theorem noNL_iff (l : List Char) : NoNL l ↔ NoCh '\n' l := Iff.rfl
 structure Safe (x : Char) : Prop where
   notIdent : isIdentChar x = false
   notMinus : x ≠ '-'
-  lits : ∀ s ∈ [" ", " = ", ";", "", ".", "repeated ", "optional ", "message", "enum", " {", " {}", "}", "rpc ", "(", ") returns (", ")", "stream ", "service"],
+  lits : ∀ s ∈ [" ", " = ", ";", "", ".", "repeated ", "optional ", "message", "enum", "oneof", "map<", ", ", ">", " {", " {}", "}", "rpc ", "(", ") returns (", ")", "stream ", "service"],
     (String.toList s).all (· != x) = true
 
 theorem safe_nl : Safe '\n' := ⟨by decide, by decide, by decide⟩
@@ -36,7 +36,7 @@ theorem NoCh.append {a b : List Char} (ha : NoCh x a) (hb : NoCh x b) : NoCh x (
   · exact hb c h
 
 theorem noCh_lit (s : String)
-    (h : s ∈ [" ", " = ", ";", "", ".", "repeated ", "optional ", "message", "enum", " {", " {}", "}", "rpc ", "(", ") returns (", ")", "stream ", "service"]) :
+    (h : s ∈ [" ", " = ", ";", "", ".", "repeated ", "optional ", "message", "enum", "oneof", "map<", ", ", ">", " {", " {}", "}", "rpc ", "(", ") returns (", ")", "stream ", "service"]) :
     NoCh x s.toList := by
   intro c hc he
   have := hx.lits s h
@@ -114,6 +114,23 @@ theorem noCh_fieldLine (n : Nat) (f : FieldD) (h : SimpleField f) : NoCh x (fiel
   rw [hty]
   exact NoCh.append hx (NoCh.append hx (NoCh.append hx (NoCh.append hx (NoCh.append hx (NoCh.append hx (NoCh.append hx hl
     (noCh_tyStr hx abs first rest hf hr)) (noCh_lit hx " " (by simp))) (noCh_ident hx hn)) (noCh_lit hx " = " (by simp)))
+    (noCh_formatInt hx _)) (noCh_lit hx ";" (by simp))) (noCh_lit hx "" (by simp))
+
+theorem noCh_mapLine (n : Nat) (f : FieldD) (h : MapField f) : NoCh x (fieldLine n f).toList := by
+  obtain ⟨_, _, _, hlab, hn, _, k, abs, first, rest, hk, hf, hr, hty⟩ := h
+  unfold fieldLine
+  apply noCh_ind hx
+  simp only [String.toList_append]
+  have hl : NoCh x f.label.toList := by rw [hlab]; exact noCh_lit hx _ (by simp)
+  have hT : NoCh x f.type.toList := by
+    rw [hty]
+    unfold mapTy
+    simp only [String.toList_append]
+    exact NoCh.append hx (NoCh.append hx (NoCh.append hx (NoCh.append hx (noCh_lit hx "map<" (by simp))
+      (noCh_tyStr hx false k [] hk (by simp))) (noCh_lit hx ", " (by simp))) (noCh_tyStr hx abs first rest hf hr))
+      (noCh_lit hx ">" (by simp))
+  exact NoCh.append hx (NoCh.append hx (NoCh.append hx (NoCh.append hx (NoCh.append hx (NoCh.append hx (NoCh.append hx hl
+    hT) (noCh_lit hx " " (by simp))) (noCh_ident hx hn)) (noCh_lit hx " = " (by simp)))
     (noCh_formatInt hx _)) (noCh_lit hx ";" (by simp))) (noCh_lit hx "" (by simp))
 
 theorem noCh_valueLine (n : Nat) (f : FieldD) (h : SimpleValue f) : NoCh x (valueLine n f).toList := by
@@ -199,8 +216,11 @@ theorem simpleItem_noCh : ∀ (e : Item) (n : Nat), SimpleItem e → CmdsNoCh x 
   | .field f, n, h => by
     simp only [SimpleItem] at h
     simp only [itemCmds]
-    rw [fieldCmds_simple n f h]
-    exact cmdsNoCh_line x _ (noCh_fieldLine hx n f h)
+    rcases h with h | h
+    · rw [fieldCmds_simple n f h]
+      exact cmdsNoCh_line x _ (noCh_fieldLine hx n f h)
+    · rw [fieldCmds_map n f h]
+      exact cmdsNoCh_line x _ (noCh_mapLine hx n f h)
   | .rpc _ _ _ _ _ _, _, h => h.elim
   | .block kw t l i name os kids, n, h => by
     simp only [SimpleItem] at h
@@ -208,11 +228,12 @@ theorem simpleItem_noCh : ∀ (e : Item) (n : Nat), SimpleItem e → CmdsNoCh x 
     subst ho
     rw [blockCmds_simple n kw t l i name kids hl]
     have hkw : NoCh x kw.toList := by
-      rcases hcase with ⟨h, _⟩ | ⟨h, _⟩ <;> rw [h] <;> exact noCh_lit hx _ (by simp)
+      rcases hcase with ⟨h, _⟩ | ⟨h, _⟩ | ⟨h, _⟩ <;> rw [h] <;> exact noCh_lit hx _ (by simp)
     have hkids : CmdsNoCh x (elemsCmds (n + 1) kids true 0 0) := by
-      rcases hcase with ⟨_, _, hk⟩ | ⟨_, _, hk⟩
+      rcases hcase with ⟨_, _, hk⟩ | ⟨_, _, hk⟩ | ⟨_, _, _, hk⟩
       · exact simpleKids_noCh kids (n + 1) true 0 hk
       · exact simpleValues_noCh kids (n + 1) true 0 hk
+      · exact simpleMembers_noCh kids (n + 1) true 0 hk
     apply CmdsNoCh.append _ (cmdsNoCh_gap x)
     split
     · apply cmdsNoCh_line
@@ -246,6 +267,18 @@ theorem simpleValues_noCh : ∀ (es : List Item) (n : Nat) (first : Bool) (lt : 
     exact cmdsNoCh_line x _ (noCh_valueLine hx n f h.1)
   | .rpc _ _ _ _ _ _ :: _, _, _, _, h => by simp [SimpleValues] at h
   | .block _ _ _ _ _ _ _ :: _, _, _, _, h => by simp [SimpleValues] at h
+theorem simpleMembers_noCh : ∀ (es : List Item) (n : Nat) (first : Bool) (lt : Nat), SimpleMembers es →
+    CmdsNoCh x (elemsCmds n es first 0 lt)
+  | [], _, _, _, _ => by intro c hc; simp [elemsCmds] at hc
+  | .field f :: r, n, first, lt, h => by
+    simp only [SimpleMembers] at h
+    rw [elemsCmds_cons_unloc n (.field f) r first lt h.1.1.2.1]
+    refine CmdsNoCh.append (CmdsNoCh.append (cmdsNoCh_gapIf x _) ?_) (simpleMembers_noCh r n false _ h.2)
+    simp only [itemCmds]
+    rw [fieldCmds_simple n f h.1.1]
+    exact cmdsNoCh_line x _ (noCh_fieldLine hx n f h.1.1)
+  | .rpc _ _ _ _ _ _ :: _, _, _, _, h => by simp [SimpleMembers] at h
+  | .block _ _ _ _ _ _ _ :: _, _, _, _, h => by simp [SimpleMembers] at h
 end
 
 end
@@ -404,9 +437,9 @@ theorem inner_enum (kids : List Item) (hk : SimpleValues kids) (n s G : Nat) (mo
   rw [hGe, hvals, enumBody_close]
   simp
 
-/-- a message or an enum, not a field -/
+/-- a message or an enum, not a field or a oneof -/
 def IsBlock : Item → Prop
-  | .block _ _ _ _ _ _ _ => True
+  | .block _ t _ _ _ _ _ => t ≠ 0
   | _ => False
 
 theorem top_item : ∀ (e : Item), SimpleItem e → IsBlock e → ∀ (s G : Nat) (a : Acc) (more : List PTok),
@@ -414,11 +447,16 @@ theorem top_item : ∀ (e : Item), SimpleItem e → IsBlock e → ∀ (s G : Nat
     topLevel (G + 1) (itemToks 0 e s ++ more) a = topLevel G more { a with items := a.items ++ [(rdItem e s).1] }
   | .field _, _, hb, _, _, _, _, _, _ => hb.elim
   | .rpc _ _ _ _ _ _, h, _, _, _, _, _, _, _ => h.elim
-  | .block kw t l i name opts kids, h, _, s, G, a, more, hm, hG => by
+  | .block kw t l i name opts kids, h, hb, s, G, a, more, hm, hG => by
     simp only [SimpleItem] at h
     obtain ⟨hl, ho, hname, hcase⟩ := h
     subst ho
     simp only [need1] at hG
+    have hcase : (kw = "message" ∧ t = 1 ∧ SimpleKids kids) ∨ (kw = "enum" ∧ t = 2 ∧ SimpleValues kids) := by
+      rcases hcase with h | h | h
+      · exact Or.inl h
+      · exact Or.inr h
+      · exact (hb h.2.1).elim
     have htr : trailOf (toksOf (elemsCmds (0 + 1) kids true 0 0) false (s + 1) ++
         T (.sym '}') (rdKids kids true 0 (s + 1) false).2 :: more) = "" := trailOf_toksOf _ _ _ _ rfl
     have htr0 : trailOf (T (.sym '}') s :: more) = "" := rfl
